@@ -207,24 +207,32 @@ def findPathFromModel (path : Str) (rw : List (Str × RWPath)) (exact : Bool) : 
         | some kv => .ok (false, kv.2)
         | none => .error (.refused .invalidArgument .noModelPath)
 
-/-- the loop of `CheckKeyValue` over the (name, value) pairs of the path's indices -/
-def checkKeyLoop (rw : RWPath) (valStr : Str) : List Str → List Str → Except Fail Unit
-  | [], _ => .error (.refused .invalidArgument .keyMismatch)
-  | _ :: _, [] => .error (.panic .sliceBounds)      -- indexValues[i] out of range (never: same length)
-  | n :: ns, v :: vs =>
+/-- `own` of `CheckKeyValue`: the last index whose name is the leaf's attribute name — the key of
+    the leaf's own list entry (an enclosing list may have a key of the same name) -/
+def ownIdx (attr : Str) : Nat → List Str → Option Nat → Option Nat
+  | _, [], last => last
+  | i, n :: ns, last => ownIdx attr (i + 1) ns (if n = attr then some i else last)
+
+/-- the second loop of `CheckKeyValue` over the (name, value) pairs of the path's indices; `i` is
+    the position of the pair at the head -/
+def checkKeyLoop (rw : RWPath) (valStr : Str) (own : Option Nat) : Nat → List Str → List Str → Except Fail Unit
+  | _, [], _ => .error (.refused .invalidArgument .keyMismatch)
+  | _, _ :: _, [] => .error (.panic .sliceBounds)      -- indexValues[i] out of range (never: same length)
+  | i, _ :: ns, v :: vs =>
     match indexValueAllowed v with
     | .error s => .error (.panic s)
     | .ok false => .error (.refused .invalidArgument .indexChars)
     | .ok true =>
-      if !rw.isAKey || (rw.attrName = n && v = valStr) then .ok ()
-      else checkKeyLoop rw valStr ns vs
+      if !rw.isAKey || (own = some i && v = valStr) then .ok ()
+      else checkKeyLoop rw valStr own (i + 1) ns vs
 
 /-- `CheckKeyValue(path, rwPath, val)` with `valStr = val.ValueToString()` -/
 def checkKeyValue (path : Str) (rw : RWPath) (valStr : Str) : Except Fail Unit :=
   match extractIndexNames path with
   | .error s => .error (.panic s)
   | .ok (names, values) =>
-    if names.isEmpty then .ok () else checkKeyLoop rw valStr names values
+    if names.isEmpty then .ok ()
+    else checkKeyLoop rw valStr (ownIdx rw.attrName 0 names none) 0 names values
 
 /-! ## Set -/
 
@@ -251,22 +259,22 @@ def effTarget (pfx : Option PathMsg) (opTarget : Str) : Str :=
 def effPath (pfx : Option PathMsg) (p : Option PathMsg) : Str :=
   if strPathMsg pfx = ['/'] then strPathMsg p else strPathMsg pfx ++ strPathMsg p
 
-/-- the part of `getTargetInfo` that runs for a target not seen before in this request -/
+/-- the part of `getTargetInfo` that runs for a target not seen before in this request; an
+    override entry decoded without value (a nil pointer) counts as absent and is overwritten -/
 def resolveNew (env : Env) (ov : OvMap) (t : Str) : Except Fail (Plugin × OvMap) :=
   match mapGet t env.topo with
   | none => .error (.refused .notFound .topoNotFound)
   | some none => .error (.refused .internal .noAspect)
   | some (some cfg) =>
     match mapGet t ov with
-    | some none => .error (.panic .nilDeref)            -- ttv.TargetType on a nil map value
     | some (some ttv) =>
       match pluginGet (ttv.type, ttv.version) env.plugins with
       | none => .error (.refused .notFound .noPlugin)
       | some p => .ok (p, ov)
-    | none =>
+    | _ =>
       match pluginGet (cfg.type, cfg.version) env.plugins with
       | none => .error (.refused .notFound .noPlugin)
-      | some p => .ok (p, ov ++ [(t, some ⟨cfg.type, cfg.version⟩)])
+      | some p => .ok (p, mapPut t (some ⟨cfg.type, cfg.version⟩) ov)
 
 /-- `getTargetInfo` -/
 def getTargetInfo (env : Env) (st : SetSt) (t : Str) : Except Fail (SetSt × TInfo) :=
@@ -359,10 +367,10 @@ def opsOf (req : SetReq) : List Op :=
     else []
 
 /-- the GNMI_SET_SIZE_LIMIT block (guards from the translator) -/
-def limitCheck (limit : Int) (targets : List (Str × TInfo)) : Except Fail Unit :=
+def limitCheck (limit : Int) (nOps : Nat) (targets : List (Str × TInfo)) : Except Fail Unit :=
   if Generated.setLimitOn limit then
     if Generated.setLimitTargetsGuard targets.length limit then .error (.refused .invalidArgument .tooManyTargets)
-    else if targets.any (fun t => Generated.setLimitOpsGuard t.2.updates.length t.2.removes.length limit) then
+    else if targets.any (fun t => Generated.setLimitOpsGuard nOps t.2.updates.length t.2.removes.length limit) then
       .error (.refused .invalidArgument .tooManyOps)
     else .ok ()
   else .ok ()
@@ -382,10 +390,22 @@ def pathsValid : List Str → Except Fail Unit
     | .ok false => .error (.refused .invalidArgument .invalidPath)
     | .ok true => pathsValid r
 
-/-- `computeChange`: every path goes through `NewChangeValue` (`IsPathValid`); deletes are written
-    after updates and win on the same path -/
+/-- the checks of `computeChange` on every path: `NewChangeValue` (`IsPathValid`) and
+    `checkPathParses` (the path must parse back into gNMI elements, as the response needs it) -/
+def pathsUsable : List Str → Except Fail Unit
+  | [] => .ok ()
+  | p :: r =>
+    match isPathValid p with
+    | .error s => .error (.panic s)
+    | .ok false => .error (.refused .invalidArgument .invalidPath)
+    | .ok true =>
+      match parsePath p with
+      | .error _ => .error (.refused .invalidArgument .invalidPath)
+      | .ok _ => pathsUsable r
+
+/-- `computeChange`: every path is checked; deletes are written after updates and win on the same path -/
 def computeChange (ti : TInfo) : Except Fail (List (Str × PV)) :=
-  match pathsValid (ti.updates.map Prod.fst ++ ti.removes) with
+  match pathsUsable (ti.updates.map Prod.fst ++ ti.removes) with
   | .error e => .error e
   | .ok () =>
     .ok (ti.removes.foldl (fun m p => mapPut p ⟨true, emptyTV⟩ m) (ti.updates.map fun e => (e.1, ⟨false, e.2⟩)))
@@ -436,7 +456,7 @@ def setPre (abs : Abs) (env : Env) (req : SetReq) : Except Fail TxRecord :=
         match applyOps abs env req.pfx ⟨[], ov⟩ (opsOf req) with
         | .error e => .error e
         | .ok st =>
-          match limitCheck env.limit st.targets with
+          match limitCheck env.limit (req.update.length + req.replace.length + req.delete.length) st.targets with
           | .error e => .error e
           | .ok () =>
             match computeChanges st.targets with
@@ -452,45 +472,6 @@ def respondOK (tx : TxRecord) : Bool :=
   tx.pairs.all fun tp => match parsePath tp.2 with
     | .ok _ => true
     | .error _ => false
-
-/-! ## what the proposal controller does with an accepted change (validate phase)
-
-`reconcileValidate` renders the target's live values — the stored ones and the change's — with
-`tree.BuildTree`; `addPathToTree` (pkg/utils/v2/tree/tree.go) takes every element but the last
-that contains `=` apart with unchecked slice expressions. -/
-
-/-- the `for strings.Contains(keyString, "=")` loop of `addPathToTree`: `false` = a slice
-    expression is out of bounds.  Every round drops at least two characters. -/
-def treeKeyLoop : Nat → Str → Bool
-  | 0, _ => true
-  | fuel + 1, ks =>
-    if !ks.contains '=' then true
-    else
-      let lo := match indexOf '[' 0 ks with      -- keyString[brktIdx+1 : eqIdx]
-        | some i => i + 1
-        | none => 0
-      match indexOf '=' 0 ks with
-      | none => true
-      | some e =>
-        if lo > e then false
-        else
-          match indexOf ']' 0 ks with            -- keyString[eqIdx+1 : brktIdx2]
-          | none => false
-          | some j => if e + 1 > j then false else treeKeyLoop fuel (ks.drop (j + 1))
-
-/-- one element of a path in `addPathToTree`: `pathelems[0][:brktIdx]` needs a `[` -/
-def treeElemOK (elem : Str) : Bool :=
-  if !elem.contains '=' then true
-  else
-    match indexOf '[' 0 elem with
-    | none => false
-    | some b => treeKeyLoop elem.length (elem.drop b)
-
-def treePathOK (path : Str) : Bool := (splitPath path).dropLast.all treeElemOK
-
-/-- can the validate phase render the live values of the change? -/
-def downstreamOK (tx : TxRecord) : Bool :=
-  tx.changes.all fun tc => tc.2.all fun e => e.2.deleted || treePathOK e.1
 
 /-! ## server state: the transaction log and which configurations exist -/
 
@@ -535,7 +516,6 @@ def touchedBy (tx : TxRecord) (cs : List (Str × CfgState)) : List (Str × CfgSt
 
 inductive SetOutcome
   | accepted (tx : TxRecord) (respOK : Bool)
-  | downstreamPanic (tx : TxRecord)       -- logged; the proposal controller panics on it
   | failed (f : Fail)
 deriving Repr
 
@@ -543,7 +523,7 @@ deriving Repr
 def handleSet (abs : Abs) (st : NBState) (req : SetReq) : SetOutcome × NBState :=
   match setPre abs st.env req with
   | .error f => (.failed f, st)
-  | .ok tx => ((if downstreamOK tx then .accepted tx (respondOK tx) else .downstreamPanic tx),
+  | .ok tx => (.accepted tx (respondOK tx),
       { st with log := st.log ++ [.change tx], configs := touchedBy tx st.configs })
 
 /-! ## Get -/
@@ -568,18 +548,16 @@ def addTarget (st : NBState) (ov : OvMap) (t : Str) : Except Fail Unit :=
   | none => .error (.refused .notFound .topoNotFound)
   | some none => .error (.refused .internal .noAspect)
   | some (some cfg) =>
-    match (match mapGet t ov with
-           | some none => Except.error (Fail.panic .nilDeref)
-           | some (some ttv) => .ok (ttv.type, ttv.version)
-           | none => .ok (cfg.type, cfg.version)) with
-    | .error e => .error e
-    | .ok key =>
+    let key := match mapGet t ov with
+      | some (some ttv) => (ttv.type, ttv.version)
+      | _ => (cfg.type, cfg.version)       -- an entry without value counts as absent
+    (
       match pluginGet key st.env.plugins with
       | none => .error (.refused .notFound .noPlugin)
       | some p =>
         match mapGet (configID t p.name p.version) st.configs with
         | none => .error (.refused .notFound .noConfig)
-        | some _ => .ok ()
+        | some _ => .ok ())
 
 def getTargetOf (pfx : Option PathMsg) (p : PathMsg) : Str :=
   if p.target.isEmpty then prefixTarget pfx else p.target
@@ -733,7 +711,6 @@ deriving DecidableEq, Repr
 
 inductive LeafSelOutcome
   | reached                -- the configuration was rendered and handed to the plugin
-  | either                 -- `Values` of a controller-written configuration: nil map or not
 deriving DecidableEq, Repr
 
 /-- the change-context loops of `LeafSelectionQuery`: updates, replaces, deletes against one plugin -/
@@ -770,29 +747,17 @@ def leafMerge (abs : Abs) (pl : Plugin) (change : Option SetReq) : Except Fail (
           | .ok () => .ok (some ups.length)
     else .ok none
 
-/-- `config.Values[path] = value` for the merged updates, then the rendering -/
-def leafTail (n : Option Nat) (cs : CfgState) : Except Fail LeafSelOutcome :=
-  let writes := match n with
-    | some k => decide (k > 0)
-    | none => false
-  if writes then
-    match cs with
-    | .empty => .error (.panic .nilMapWrite)     -- assignment to an entry of a nil map
-    | .values => .ok .reached
-    | .touched => .ok .either
-  else .ok .reached
-
 /-- `LeafSelectionQuery` -/
 def handleLeafSel (abs : Abs) (st : NBState) (req : LeafSelReq) : Except Fail LeafSelOutcome :=
   match mapGet (configID req.target req.type req.version) st.configs with
   | none => .error (.refused .notFound .noConfig)
-  | some cs =>
+  | some _ =>
     match pluginGet (req.type, req.version) st.env.plugins with
     | none => .error (.refused .invalidArgument .noPlugin)
     | some pl =>
       match leafMerge abs pl req.change with
       | .error e => .error e
-      | .ok n => leafTail n cs
+      | .ok _ => .ok .reached      -- the value map is allocated before the merge, whatever `cs`
 
 def capStep (acc : List Str) (kp : (Str × Str) × Plugin) : List Str :=
   if acc.contains (kp.2.name ++ '!' :: kp.2.version) then acc else (kp.2.name ++ '!' :: kp.2.version) :: acc
